@@ -652,8 +652,8 @@ def main(tier):
     if st['compared'] < 300000 or distinct < 20000:
         raise common.Inconclusive('too few comparisons: %d values over %d non-trivial intervals' % (st['compared'], distinct))
     # functions of their arguments alone: a thinned grid re-run in other call orders and without an error slot
-    _Z, _X = [x.ravel() for x in np.meshgrid(np.arange(1, 101), np.array([0.0, 0.0009, 0.00154925, 0.1, 1.0, 3.0, 8.04, 20.0, 59.5, 100.0, 799.0, 801.0, 999.0, 15000.0, 17000.0, 25000.0]), indexing='ij')]
-    _Z2, _S2, _P2 = [x.ravel() for x in np.meshgrid(np.arange(1, 101, 3), np.arange(0, 12), np.array([0.0, 0.5, 2.0, 50.0, 150.0]), indexing='ij')]
+    _Z, _X = [x.ravel() for x in np.meshgrid(np.arange(1, 101), np.array([0.0, 5e-324, 1e-310, 2.2250738585072014e-308, 0.0009, 0.00154925, 0.1, 1.0, 3.0, 8.04, 20.0, 59.5, 100.0, 799.0, 801.0, 999.0, 15000.0, 17000.0, 25000.0]), indexing='ij')]
+    _Z2, _S2, _P2 = [x.ravel() for x in np.meshgrid(np.arange(1, 101, 3), np.arange(0, 12), np.array([0.0, 1e-310, 0.5, 2.0, 50.0, 150.0]), indexing='ij')]
     _extra = execlib.independence(ck, 'c02', 'shipped', [(f, _Z, _X) for f in ('CS_Photo', 'CS_Rayl', 'CS_Compt', 'CS_Energy', 'FF_Rayl', 'SF_Compt', 'Fi', 'Fii', 'ComptonProfile')] +
                                   [('ComptonProfile_Partial', _Z2, _S2, _P2)])
     st['calls'] += _extra
